@@ -403,6 +403,7 @@ public:
   stack::uptr
   next (scon &sc) const override final
   {
+    DWGREP_VERIF_STEP ();
     while (auto stk = this->m_upstream->next (sc))
       if (auto nv = call_operate
 		(std::index_sequence_for <VT...> {},
@@ -518,6 +519,7 @@ public:
 
     while (true)
       {
+	DWGREP_VERIF_STEP ();
 	while (st.m_prod == nullptr)
 	  if (auto stk = this->m_upstream->next (sc))
 	    {
